@@ -80,6 +80,10 @@ def realisations(np, c, t):
             out.append(("scalar" if n == 0 else "scalar:cplx%d" % n, "value", vec[0].item()))
     if const and c["pred"][0]["k"] in ("neg", "zero", "pos"):
         out.append(("scalar:int", "value", int(c["pred"][0]["v"])))
+    if all(e["k"] in ("neg", "zero", "pos") for e in c["pred"]):
+        # the same finite real values, computed the way a fitted function computes them far from its optimum: an intermediate
+        # underflows to 0 (exp(-a x)) and another overflows to inf before being inverted -- IEEE flags, not errors
+        out.append(("vector:ieee_flags", "flags", realise(np, c["pred"], None)))
     return out
 
 
@@ -155,6 +159,10 @@ def call(np, obj, how, arg, npar):
     if how == "raise":
         def eq_numpy(x, *a):
             raise EXC[arg]("model function")
+    elif how == "flags":
+        def eq_numpy(x, *a):
+            big = np.full(np.shape(arg), 800.0)
+            return arg + np.exp(-big) * np.exp(-big) + 1.0 / np.exp(big)       # + 0 (underflow) + 1/inf (overflow)
     else:
         def eq_numpy(x, *a):
             return arg.copy() if hasattr(arg, "copy") else arg
@@ -291,7 +299,7 @@ def run(tier, replay=None):
                   "returned": repr(meta[i][4][1]), "observed": obs[i]["obs"] + (" (matches)" if obs[i]["matches"] else "")})
     r.cov["rule"] = ("every case of Like.tla (configurations %s): class x multiset of data points (y, sigma) x every sequence of model-function "
                      "values over {finite values, NaN, +Inf, -Inf, complex}, plus a model function that raises; each presented to the real class as an "
-                     "ndarray-returning closure (and as scalar-returning ones when the values are all equal; %d exception type(s), %d complex "
+                     "ndarray-returning closure (and as scalar-returning ones when the values are all equal, and, for finite values, as one whose intermediates underflow and overflow; %d exception type(s), %d complex "
                      "realisation(s)); TLC (LikeJudge) decides never_nan / inf_exactly_when_required / value / returns from the projected result. "
                      "non-trivial = model cases with at least one non-ordinary value (table entry 'stated' or 'limit'), a raising model function, "
                      "or a non-zero coefficient of ln 2, ln 3 or ln(2 pi) in the required value" % (
